@@ -1310,13 +1310,32 @@ func splitHostPort(address string) (net.IP, int, error) {
 	}
 	var ip net.IP
 	if h != "" {
-		ip = net.ParseIP(h)
+		ip = Resolve(h)
 		if ip == nil {
 			return nil, 0, fmt.Errorf("simnet: bad host %q", h)
 		}
 	}
 
 	return ip, port, nil
+}
+
+// Hosts are the host names the simulated resolver knows (listening and dialling by name is legal wherever an
+// address string is taken).
+var Hosts = map[string]net.IP{
+	"relay.test":  net.IPv4(10, 9, 0, 1).To4(),
+	"relay6.test": net.ParseIP("fd00:9::1"),
+}
+
+// Resolve turns an IP literal or a known host name into an IP (nil: unknown).
+func Resolve(h string) net.IP {
+	if ip := net.ParseIP(h); ip != nil {
+		return ip
+	}
+	if ip, ok := Hosts[h]; ok {
+		return append(net.IP(nil), ip...)
+	}
+
+	return nil
 }
 
 // ListenPacket implements transport.Net.
